@@ -807,7 +807,88 @@ def rule_perannotation(ctx):
     yield ob(R, f, "segment.validate_structure:per-annotation-tests", len(inside) >= 2 and not outside_using_loopvar and len(calls_in) == 1, "validate_intervals, the label-count test and the starts-at-0 test run once per annotation (inside the loop)" if len(inside) >= 2 and not outside_using_loopvar else "a test on the loop's annotation variables sits after the loop (line %s): only the last annotation (the estimate) is checked" % ", ".join(str(r.node.lineno) for r in outside_using_loopvar) if outside_using_loopvar else "fewer than two raising tests remain inside the per-annotation loop")
 
 
+def _elementwise(t):
+    """the test an element-wise formula applies to a single element: x.any() / np.any(x) / np.all(x) on a one-element
+    array is the element itself; logical_or / | is `or`, logical_and / & is `and`, ~ / logical_not is `not`"""
+
+    def f(x):
+        if x.op == "call":
+            n = call_name(x)
+            if n in (".any", ".all", "np.any", "np.all") and len(x.a[1]) == 1 and not x.a[2]:
+                return _elementwise(x.a[1][0])
+            if n in ("np.logical_or", "np.logical_and") and len(x.a[1]) == 2:
+                return tm.boolop("or" if n == "np.logical_or" else "and", [_elementwise(z) for z in x.a[1]])
+            if n == "np.logical_not" and len(x.a[1]) == 1:
+                return tm.unop("not", _elementwise(x.a[1][0]))
+        if x.op == "bin" and x.a[0] in ("|", "&"):
+            return tm.boolop("or" if x.a[0] == "|" else "and", [_elementwise(x.a[1]), _elementwise(x.a[2])])
+        if x.op == "un" and x.a[0] == "~":
+            return tm.unop("not", _elementwise(x.a[1]))
+        if x.op == "un" and x.a[0] == "not":
+            return tm.unop("not", _elementwise(x.a[1]))
+        if x.op == "bool":
+            return tm.boolop(x.a[0], [_elementwise(z) for z in x.a[1:]])
+        return x
+
+    return f(t)
+
+
+def rule_nanrange(ctx):
+    """A validator's closed-range test - one operand compared with a lower and an upper constant, rejecting what lies
+    below the one or above the other - must also reject NaN, which lies in no range: `w < 0 or w > 1` is false for NaN
+    (every ordering test on NaN is false) and lets it through to the score, `not 0 <= w <= 1` rejects it.  The repo
+    itself has both spellings for the same quantity (io.load_tempo and tempo.validate on the tempo weight)."""
+    from .. import finmodel
+
+    R = "C14.NANRANGE"
+    for f in ctx.program.all_funcs():
+        s = ctx.S.get(f.qual)
+        seen = set()
+        for r in s.by_kind("raise"):
+            if r.exc != "ValueError" or symeval.pc_in_try(r.pc):
+                continue
+            conds = list(symeval.pc_conds(r.pc))
+            if not conds:
+                continue
+            c, pol = conds[-1]
+            e = _elementwise(c)
+            m = finmodel.Model([e])
+            if len(m.vars) != 1 or any(k[0] != "n" for k in m.consts):
+                continue
+            ks = sorted(k[1] for k in m.consts)
+            if len(ks) < 2:
+                continue
+            w = m.vars[0]
+            lo, hi = ks[0], ks[-1]
+            fires = {}
+            undecided = False
+            for val in m.valuations():
+                g = m.truth(e, val)
+                if g is None:
+                    undecided = True
+                    break
+                fires[val[w.id]] = g if pol else (not g)
+            if undecided or not m.ok or not fires:
+                continue
+            below = [v for v in fires if v < lo]
+            above = [v for v in fires if v > hi]
+            inside = [v for v in fires if lo < v < hi]
+            # a closed- or open-range test: fires on both outer sides, not strictly inside
+            if not (below and above and inside and all(fires[v] for v in below + above) and not any(fires[v] for v in inside)):
+                continue
+            g = m.truth(e, {w.id: float("nan")})
+            if g is None:
+                continue
+            g = g if pol else (not g)
+            key = "%s:%s" % (f.qual, ",".join(sorted(tm.params_of(w))) or tm.show(w, 2))
+            if key in seen:
+                continue
+            seen.add(key)
+            yield ob(R, f, key, bool(g), "the range test [%s, %s] on %s also rejects NaN" % (lo, hi, tm.show(w, 2)) if g else "the range test [%s, %s] on %s is built from one-sided comparisons that are all false for NaN: a NaN value is accepted as in range and flows into the score (write `not %s <= x <= %s`)" % (lo, hi, tm.show(w, 2), lo, hi), node=r.node)
+
+
 RULES = [
+    ("C14.NANRANGE", 3, rule_nanrange),
     ("C14.VALIDATEFIRST", 70, rule_validatefirst),
     ("C14.RAISETYPES", 80, rule_raisetypes),
     ("C14.FACETS", len(FACETS), rule_facets),
